@@ -71,7 +71,7 @@ func IndentChains(fn func(t any) bool) {
 }
 
 // TableCellKinds are the cell fillings of the table family.
-var TableCellKinds = []string{"int", "str", "arr", "map", "mapvar", "bycol", "byrowcol", "nilstr"}
+var TableCellKinds = []string{"int", "str", "arr", "map", "mapvar", "bycol", "byrowcol", "nilstr", "nestmix"}
 
 // Cell is the value of the cell in row i, column j for a cell kind. Widths
 // vary with the position so that padding is needed; "mapvar" cells are maps
@@ -105,6 +105,13 @@ func Cell(kind string, i, j int) any {
 		return Cell([]string{"int", "str", "arr"}[j%3], i, j)
 	case "byrowcol":
 		return Cell([]string{"int", "str", "arr", "map"}[(i+j)%4], i, j)
+	case "nestmix":
+		// one level further down an object in one row and an array in the other:
+		// the columns of a table are found by position, whatever they hold
+		if (i+j)%2 == 0 {
+			return []any{map[string]any{"a": int64(1 + i)}}
+		}
+		return []any{[]any{[]any{int64(5 + j)}}}
 	case "nilstr":
 		switch (i + j) % 3 {
 		case 0:
